@@ -3993,7 +3993,8 @@ class Client:
         if result == 0:
             rc = MQTTErrorCode.MQTT_ERR_SUCCESS
             with self._out_message_mutex:
-                for m in self._out_messages.values():
+                # (a snapshot: on_publish, run by the loop_write() calls below, may publish)
+                for m in list(self._out_messages.values()):
                     if self._sock is None:
                         # The connection was lost while retransmitting (a write
                         # failed): the remaining messages have not been sent.
@@ -4287,7 +4288,8 @@ class Client:
 
     def _update_inflight(self) -> MQTTErrorCode:
         # Dont lock message_mutex here
-        for m in self._out_messages.values():
+        # (a snapshot: on_publish, run when _send_publish() writes, may publish)
+        for m in list(self._out_messages.values()):
             if self._sock is None:
                 # nothing can be sent: leave the waiting messages queued
                 return MQTTErrorCode.MQTT_ERR_NO_CONN
